@@ -4,4 +4,7 @@ INIT Init
 NEXT Next
 INVARIANT LawFlatten
 INVARIANT LawExtends
+INVARIANT LawVMRefines
+INVARIANT LawVMFlags
+INVARIANT LawVMNoBadState
 CHECK_DEADLOCK FALSE
